@@ -4,6 +4,7 @@ package gossip
 
 import (
 	"errors"
+	"net"
 
 	"github.com/andydunstall/piko/pkg/log"
 	v "github.com/andydunstall/piko/zzverif"
@@ -71,5 +72,87 @@ func Harness_C18_leave_loop() {
 		v.Cover("all-failed")
 	} else if live > 0 {
 		v.Cover("notified")
+	}
+}
+
+// The TCP dial of a peer returns a model stream (tag "c18-dial").
+//
+//gosym:stub (*net.Dialer).Dial = vStubGossipDial if c18-dial
+
+var (
+	vDialedConn *vConn
+	vDialedAddr string
+)
+
+func vStubGossipDial(d *net.Dialer, network, address string) (net.Conn, error) {
+	vDialedAddr = address
+	if vDialedConn == nil {
+		return nil, vErrLeave
+	}
+	return vDialedConn, nil
+}
+
+// Harness_C18_leave_message: what the real Gossip.leave puts on the stream to
+// one peer. The peer may be behind by any amount (the last writes of the
+// leaving node - such as the withdrawal of all its endpoints - may not have
+// reached it), so the notification must carry the node's whole state ending
+// with the left marker: a receiver that applies it knows everything the
+// leaver published. The exchange is bounded by a deadline and waits for the
+// acknowledgement.
+func Harness_C18_leave_message() {
+	v.Tag("c13-codec")
+	v.Tag("c18-dial")
+	K := v.Param("K", 2)
+	s := vNewState("obs", nil)
+	// an arbitrary history of local writes, then the leave
+	for i := 0; i < K; i++ {
+		key := []string{"k0", "k1"}[v.Choose("key", 2)]
+		if v.Choose("op", 2) == 0 {
+			s.UpsertLocal(key, v.Str("value"))
+		} else {
+			s.DeleteLocal(key)
+		}
+	}
+	s.LeaveLocal()
+	want := vSnapshot(s.nodes["obs"])
+
+	vCodecReset(0)
+	vDecMode, vDecBudget = 0, 1
+	vDialedConn = &vConn{}
+	g := &Gossip{state: s, dialer: &net.Dialer{}, metrics: newMetrics(), logger: log.NewNopLogger()}
+	err := g.leave("peer:7000")
+	v.Assert("C18/leave-message/dials-the-peer", vDialedAddr == "peer:7000")
+	v.Assert("C18/leave-message/bounded-by-deadline", vDialedConn.unguarded == 0)
+	v.Assert("C18/leave-message/connection-released", vDialedConn.closed)
+	// what was encoded: the header naming the leaver, then its delta
+	v.Assert("C18/leave-message/header-and-delta", len(vEncItems) == 2)
+	if len(vEncItems) == 2 {
+		hdr, isHdr := vEncItems[0].val.(*joinHeader)
+		v.Assert("C18/leave-message/names-the-leaver", isHdr && hdr.NodeID == "obs")
+		d, isDelta := vEncItems[1].val.(delta)
+		v.Assert("C18/leave-message/one-node-delta", isDelta && len(d) == 1 && d[0].ID == "obs")
+		if isDelta && len(d) == 1 {
+			got := map[string]Entry{}
+			var last uint64
+			for _, e := range d[0].Entries {
+				got[e.Key] = e
+				v.Assert("C18/leave-message/version-order", e.Version > last)
+				last = e.Version
+			}
+			// the whole published state, ending with the left marker
+			v.Assert("C18/leave-message/whole-state", len(got) == len(want))
+			for k, e := range want {
+				g2, p := got[k]
+				v.Assert("C18/leave-message/whole-state", p && g2 == e)
+			}
+			l, hasLeft := got[leftKey]
+			v.Assert("C18/leave-message/carries-left-marker", hasLeft && l.Internal && l.Version == s.nodes["obs"].Version)
+		}
+	}
+	if err == nil {
+		v.Assert("C18/leave-message/waited-for-ack", vDecCalls >= 1)
+		v.Cover("acknowledged")
+	} else {
+		v.Cover("no-ack")
 	}
 }
